@@ -1011,6 +1011,18 @@ class Evaluator:
                         if isinstance(val, V) and val == recv.args[0]:
                             fr.vars[nm] = App("reorder:sorted-through-view", (val,))
                 return None
+        if isinstance(v, ast.Call) and ast.unparse(v.func) in ("np.copyto", "numpy.copyto") and len(v.args) >= 2 and isinstance(v.args[0], ast.Name) \
+                and all(k.arg in ("where", "casting") for k in v.keywords):
+            # np.copyto(dst, src, where=mask): dst holds src where the mask is set and its old content elsewhere (an in-place write)
+            dst, src = self.eval(v.args[0], fr), self.eval(v.args[1], fr)
+            wh = [k.value for k in v.keywords if k.arg == "where"]
+            if isinstance(dst, V) and isinstance(src, V):
+                root = storage_root(dst)
+                if root is not None:
+                    self.event("inplace", how="np.copyto", root=root, target="arg0", node=st, value=dst)
+                new = src if not wh else self.lib.np_call(self, "where", [self.eval(wh[0], fr), src, dst], {}, v)
+                self.rebind(v.args[0], new, fr)
+                return None
         self.eval(st.value, fr)
         return None
 
